@@ -206,25 +206,92 @@ def reads_status(n):
                for x in walk(n))
 
 
-def request_triggered(body_stmts, guard_consts):
-    """writes (fields reached through the simulation pointer) and calls inside the regions of a function that are control-dependent
-    on a test of r->status against one of the status values a web-server request can set"""
-    writes, calls, regions = set(), set(), [0]
+def classify_store(e):
+    """where does a store through the lvalue e land?  ("field", f): member f of the simulation struct itself;
+    ("via", f): memory reached through the pointer member f of the simulation (r->particles[i].x, r->server_data->flag); None: not the simulation"""
+    deref = False
+    while True:
+        k = e.get("kind")
+        if k in ("ParenExpr", "CStyleCastExpr"):
+            e = kids(e)[0]
+        elif k == "ImplicitCastExpr":
+            if e.get("castKind") == "LValueToRValue":
+                deref = deref        # reading a pointer value that is then dereferenced by the parent (handled there)
+            e = kids(e)[0]
+        elif k == "ArraySubscriptExpr":
+            base = kids(e)[0]
+            if not (base.get("kind") == "ImplicitCastExpr" and base.get("castKind") == "ArrayToPointerDecay"):
+                deref = True        # subscript of a pointer
+            e = base
+        elif k == "UnaryOperator" and e.get("opcode") == "*":
+            deref = True
+            e = kids(e)[0]
+        elif k == "UnaryOperator" and e.get("opcode") == "&":
+            e = kids(e)[0]
+        elif k == "MemberExpr":
+            base = kids(e)[0]
+            if e.get("isArrow"):
+                if is_simptr(strip(base)) or is_simptr(base):
+                    return ("via" if deref else "field", e.get("name"))
+                deref = True
+            e = base
+        else:
+            return None
+
+
+def effects_of(node, fbodies, effects, ext, seen, depth=0):
+    """conservative effect set of a statement on the simulation, following calls into functions of this translation unit:
+         field:f / via:f    stores (see classify_store)
+         opaque:g           a pointer to a non-const simulation is handed to g whose body is not visible here (or g is a function pointer)
+         extptr:f:g         a pointer into the simulation (through member f) is handed to the external function g
+       ext collects the external functions called without any access to the simulation"""
+    if depth > 6:
+        fail("effects: call chain too deep")
+    for x in walk(node):
+        k = x.get("kind")
+        if k == "CallExpr":
+            g = callee(x)
+            args = kids(x)[1:]
+            if g in fbodies:
+                if g not in seen:
+                    seen.add(g)
+                    effects_of(fbodies[g], fbodies, effects, ext, seen, depth + 1)
+                continue
+            if g in SYNC_CALLS and not g.startswith("pthread_"):
+                effects.add("opaque:" + g)
+                continue
+            if any(is_simptr(a, writable_only=True) for a in args):
+                effects.add("opaque:" + g)
+                continue
+            handed = False
+            for a in args:
+                if "*" in qt(a) or "[" in qt(a):
+                    c = None
+                    for y in walk(a):
+                        if y.get("kind") == "MemberExpr" and y.get("isArrow") and (is_simptr(strip(kids(y)[0])) or is_simptr(kids(y)[0])):
+                            c = y.get("name")
+                    if c:
+                        effects.add("extptr:%s:%s" % (c, g)); handed = True
+            if not handed:
+                ext.add(g)
+        elif k in ("BinaryOperator", "CompoundAssignOperator") and (k == "CompoundAssignOperator" or x.get("opcode") == "="):
+            c = classify_store(kids(x)[0])
+            if c:
+                effects.add("%s:%s" % c)
+        elif k == "UnaryOperator" and x.get("opcode") in ("++", "--"):
+            c = classify_store(kids(x)[0])
+            if c:
+                effects.add("%s:%s" % c)
+
+
+def request_triggered(body_stmts, guard_consts, fbodies):
+    """effects (see effects_of) of the regions of a function that are control-dependent on a test of r->status against one of the
+    status values a web-server request can set"""
+    effects, ext, regions = set(), set(), [0]
 
     def collect(n):
         regions[0] += 1
-        for x in walk(n):
-            k = x.get("kind")
-            if k == "CallExpr":
-                calls.add(callee(x))
-            elif k in ("BinaryOperator", "CompoundAssignOperator") and (k == "CompoundAssignOperator" or x.get("opcode") == "="):
-                f = lhs_root_through_sim(kids(x)[0])
-                if f:
-                    writes.add("field:" + f)
-            elif k == "UnaryOperator" and x.get("opcode") in ("++", "--"):
-                f = lhs_root_through_sim(kids(x)[0])
-                if f:
-                    writes.add("field:" + f)
+        effects_of(n, fbodies, effects, ext, set())
 
     def visit(n):
         k = n.get("kind")
@@ -241,12 +308,53 @@ def request_triggered(body_stmts, guard_consts):
                 collect(c[-1] if k != "DoStmt" else c[0])
                 return
         elif k in ("SwitchStmt", "ConditionalOperator") and reads_status(c[0]):
-            fail("reb_check_exit: status tested by a %s (not understood)" % k)
+            fail("status tested by a %s (not understood)" % k)
         for x in c:
             visit(x)
     for s_ in body_stmts:
         visit(s_)
-    return sorted(writes), sorted(calls), regions[0]
+    return sorted(effects), sorted(ext), regions[0]
+
+
+def teardown_sequence(stmts, where):
+    """ordered teardown actions of a function body: stop_server / free:<member> / opaque:<callee> (a writable simulation handed to
+    a function, which may free or modify members) / call:<name> (pthread_*, close) / other.  Statements are classified as a whole."""
+    out = []
+    for st in stmts:
+        labels = []
+        for x in walk(st):
+            if x.get("kind") != "CallExpr":
+                continue
+            g = callee(x)
+            args = kids(x)[1:]
+            if g == "reb_simulation_stop_server":
+                labels.append("stop_server")
+            elif g == "free":
+                m = None
+                for y in walk(args[0]):
+                    if y.get("kind") == "MemberExpr" and y.get("isArrow") and (is_simptr(strip(kids(y)[0])) or is_simptr(kids(y)[0])):
+                        m = y.get("name")
+                if m is None and is_simptr(strip(args[0])):
+                    m = "<simulation>"
+                labels.append("free:" + (m or "<local>"))
+            elif g.startswith("pthread_") or g in ("close", "closesocket"):
+                labels.append("call:" + g)
+            elif any(is_simptr(a, writable_only=True) for a in args):
+                labels.append("opaque:" + g)
+        if not labels:
+            # assignment r->server_data = NULL etc.
+            c = None
+            for x in walk(st):
+                if x.get("kind") == "BinaryOperator" and x.get("opcode") == "=":
+                    c = classify_store(kids(x)[0])
+            labels.append("store:%s" % c[1] if c else "other")
+        # one statement may hold several calls (loops); keep order of first occurrence, no duplicates
+        seen = []
+        for l in labels:
+            if l not in seen:
+                seen.append(l)
+        out += seen
+    return out
 
 
 def compute_syncfuns(ast, exclude):
@@ -426,9 +534,11 @@ def main():
         fail("no REB_STATUS_* constant in reb_server_start")
     ast = ast_of("rebound.c")
     compute_syncfuns(ast, exclude={"reb_simulation_integrate_raw", "reb_simulation_integrate"})
-    rt_writes, rt_calls, rt_regions = request_triggered(kids(function(ast, "reb_check_exit")), guard_consts)
+    fbodies_r = {f["name"]: [x for x in f.get("inner", []) if x.get("kind") == "CompoundStmt"][0] for f in ast["inner"]
+                 if f.get("kind") == "FunctionDecl" and any(x.get("kind") == "CompoundStmt" for x in f.get("inner", []))}
+    rt_writes, rt_calls, rt_regions = request_triggered(kids(function(ast, "reb_check_exit")), guard_consts, fbodies_r)
     # ... and the same for reb_simulation_integrate_raw itself (its prologue keeps a paused simulation paused)
-    w2, c2, n2 = request_triggered(kids(function(ast, "reb_simulation_integrate_raw")), guard_consts)
+    w2, c2, n2 = request_triggered(kids(function(ast, "reb_simulation_integrate_raw")), guard_consts, fbodies_r)
     rt_writes = sorted(set(rt_writes) | set(w2)); rt_calls = sorted(set(rt_calls) | set(c2)); rt_regions += n2
     body = kids(function(ast, "reb_simulation_integrate_raw"))
     if body and body[-1].get("kind") == "ReturnStmt" and not has_sync(body[-1]) and not sim_write_label(body[-1]):
@@ -472,6 +582,11 @@ def main():
     steps_body = translate_stmt(fk[-1], "reb_simulation_steps loop body")
     # any other function of rebound.c that touches the mutex is outside the model: list them
     # ------------------------------------------------------------------ server thread
+    # teardown order: reb_simulation_free -> reb_simulation_free_pointers -> (frees | reb_simulation_stop_server | frees)
+    td_free = teardown_sequence(kids(function(ast, "reb_simulation_free")), "reb_simulation_free")
+    td_ptrs = teardown_sequence(kids(function(ast, "reb_simulation_free_pointers")), "reb_simulation_free_pointers")
+    if "stop_server" not in td_ptrs:
+        fail("reb_simulation_free_pointers does not call reb_simulation_stop_server")
     sync_helpers_rebound = sorted(SYNCFUNS)
     # who calls functions that operate the mutex (directly or through helpers)?  Every such call must be inside the modelled programs.
     fbodies = {f["name"]: [x for x in f.get("inner", []) if x.get("kind") == "CompoundStmt"][0] for f in ast["inner"]
@@ -506,6 +621,9 @@ def main():
                 elif x.get("kind") in ("BinaryOperator", "CompoundAssignOperator", "UnaryOperator") and sim_write_label(x) and \
                         sim_write_label(x).startswith("field:") and x.get("opcode") in ("=", "++", "--", "+=", "-="):
                     startup_writes.append(sim_write_label(x))
+    ss = kids(function(sast, "reb_simulation_stop_server"))
+    td_stop = teardown_sequence([x for st in ss for x in ([st] if st.get("kind") != "IfStmt" else kids(kids(st)[1]) if kids(st)[1].get("kind") == "CompoundStmt" else [kids(st)[1]])],
+                                "reb_simulation_stop_server")
     lb = kids(kids(sloops[0])[1])
     disp = [i for i, s in enumerate(lb) if s.get("kind") == "IfStmt" and has_sync(s)]
     if len(disp) != 1:
@@ -514,6 +632,9 @@ def main():
         if i != disp[0] and (has_sync(s) or sim_write_label(s)):
             fail("request loop: synchronisation / simulation write outside the dispatch chain")
     handlers = []
+    handler_effects = []
+    fbodies_s = {f["name"]: [x for x in f.get("inner", []) if x.get("kind") == "CompoundStmt"][0] for f in sast["inner"]
+                 if f.get("kind") == "FunctionDecl" and any(x.get("kind") == "CompoundStmt" for x in f.get("inner", []))}
     node = lb[disp[0]]
     while True:
         c = kids(node)
@@ -532,12 +653,18 @@ def main():
         acts = translate_stmt(c[1], "handler " + uri)
         # several uris served by the same branch (|| chain): one handler
         handlers.append((name, acts))
+        he, hx = set(), set()
+        effects_of(c[1], fbodies_s, he, hx, set())
+        handler_effects.append((name, sorted(he), sorted(hx)))
         if len(c) == 2:
             break
         if c[2].get("kind") == "IfStmt":
             node = c[2]
             continue
         handlers.append(("<other>", translate_stmt(c[2], "handler <other>")))
+        he, hx = set(), set()
+        effects_of(c[2], fbodies_s, he, hx, set())
+        handler_effects.append(("<other>", sorted(he), sorted(hx)))
         break
     # descriptor hygiene of the request loop: stream = fdopen(fd, ..) ... fclose(stream); close(fd);  closes fd twice; in a
     # multi-threaded process the second close can hit a descriptor another thread has just opened
@@ -561,7 +688,15 @@ def main():
                 if (u.get("kind") == "CallExpr" and callee(u) == "fclose" and v.get("kind") == "CallExpr" and callee(v) == "close"
                         and (arg_name(u), arg_name(v)) in fdopen_pairs):
                     double_close += 1
-    out = {"double_close_sites": double_close, "prologue": pro, "heads": heads, "steps_body": steps_body, "body": lbody, "sync_helpers": sync_helpers_rebound, "epilogue": epi, "handlers": handlers, "server_startup_writes": startup_writes}
+    # the key codes the /keyboard/ handler reacts to (case labels of its switch), for the searcher
+    keyboard_keys = []
+    for x in walk(lb[disp[0]]):
+        if x.get("kind") == "CaseStmt":
+            for y in walk(kids(x)[0]):
+                if y.get("kind") in ("IntegerLiteral", "CharacterLiteral") and "value" in y:
+                    keyboard_keys.append(int(y["value"])); break
+    keyboard_keys = sorted(set(keyboard_keys))
+    out = {"keyboard_keys": keyboard_keys, "double_close_sites": double_close, "prologue": pro, "heads": heads, "steps_body": steps_body, "body": lbody, "sync_helpers": sync_helpers_rebound, "epilogue": epi, "handlers": handlers, "server_startup_writes": startup_writes}
     os.makedirs(os.path.dirname(OUTJ), exist_ok=True)
     json.dump(out, open(OUTJ, "w"), indent=1)
     coq = ["(* GENERATED by tools/translate_lockproto.py from $VERIF_REPO/src/rebound.c, server.c — do not edit. *)",
@@ -573,9 +708,18 @@ def main():
            "(* status values a request handler of server.c sets or tests *)",
            "Definition request_guard_constants : list string := [%s]." % "; ".join(qs(c) for c in sorted(guard_consts)),
            "(* inside the %d regions of reb_check_exit / reb_simulation_integrate_raw that are control-dependent on a test of r->status against one of them: *)" % rt_regions,
+           "(* effects: field:f / via:f / opaque:g / extptr:f:g (see handler_effects below); calls: external functions reached without access to the simulation *)",
            "Definition request_triggered_writes : list string := [%s]." % "; ".join(qs(c) for c in rt_writes),
            "Definition request_triggered_calls : list string := [%s]." % "; ".join(qs(c) for c in rt_calls),
            "Definition request_triggered_regions : nat := %d." % rt_regions,
+           "(* per request handler: effects on the simulation (field:f = store to member f, via:f = store through pointer member f, opaque:g = writable",
+           "   simulation handed to g, extptr:f:g = pointer into the simulation handed to external g) and functions called without access to it *)",
+           "Definition handler_effects : list (string * list string * list string) := [\n  %s]." % ";\n  ".join(
+               "(%s, [%s], [%s])" % (qs(h), "; ".join(qs(e) for e in he), "; ".join(qs(e) for e in hx)) for h, he, hx in handler_effects),
+           "(* ordered teardown actions (free:<member of the simulation> / opaque:<callee given a writable simulation> / stop_server / call:<name> / store:<member>) *)",
+           "Definition teardown_free : list string := [%s]." % "; ".join(qs(x) for x in td_free),
+           "Definition teardown_free_pointers : list string := [%s]." % "; ".join(qs(x) for x in td_ptrs),
+           "Definition teardown_stop_server : list string := [%s]." % "; ".join(qs(x) for x in td_stop),
            "(* (caller, callee) for every call in rebound.c to a function that operates a pthread mutex directly or through helpers *)",
            "Definition mutex_callers : list (string * string) := [%s]." % "; ".join("(%s, %s)" % (qs(a), qs(b)) for a, b in mutex_callers),
            "(* functions of rebound.c that contain synchronisation and are inlined where the modelled programs call them *)",
@@ -586,6 +730,8 @@ def main():
            "Definition steps_loop_body : list act := %s." % coq_list(steps_body),
            "Definition handlers : list (string * list act) := [\n  %s]." % ";\n  ".join("(%s, %s)" % (qs(h), coq_list(a)) for h, a in handlers),
            "(* simulation writes of the server thread before it accepts requests (message buffer), not part of the modelled programs *)",
+           "(* key codes with a case label in the /keyboard/ handler *)",
+           "Definition keyboard_keys : list nat := [%s]." % "; ".join(str(k) for k in keyboard_keys),
            "(* places where the request loop closes a connection descriptor twice: fclose(fdopen(fd)) followed by close(fd) *)",
            "Definition server_double_close_sites : nat := %d." % double_close,
            "Definition server_startup_writes : list string := [%s]." % "; ".join(qs(f) for f in startup_writes),
